@@ -156,6 +156,20 @@ def run(A, R: Report, thorough: bool):
             n = sum(1 for x in dag_nodes(term) if x[0] == 'cat')
             R.ok('R03.1', name, f'{n} concatenation(s): every non-literal part is escaped, recursive or identifier-like', where=where(f))
 
+    # ---- R03.1b the known non-injective renderer must not spread to further value kinds
+    rfi_flawed = any(True for _ in raw_user_parts(K.piece('repr_from_instantiation')))
+    R.rule('R03.1b', 'while the structural renderer splices strings unescaped, it is used only for plain config values (parameter values, object-definition arguments), never where builtin repr() was the renderer', floor=1)
+    legit = {'AbstractParameter.value_repr', 'find_and_instantiate_clazz', 'repr_from_instantiation'}
+    for name, term, f in K.pieces():
+        uses = [x for x in dag_nodes(term) if x[0] in ('ref', 'rec') and 'repr_from_instantiation' in str(x[1])]
+        if not uses:
+            continue
+        if name in legit or not rfi_flawed:
+            R.ok('R03.1b', name, f'{len(uses)} use(s) of the structural renderer', where=where(f))
+        else:
+            R.violation('R03.1b', name, key_of('renderer-spread', name), f'{name} now renders values with repr_from_instantiation, whose string branch does not escape quotes: '
+                        'string arguments containing a quote and a separator make different objects render alike (before, builtin repr() escaped them)', witness=[pretty(uses[0])[:200]], where=where(f))
+
     # ---- R03.2
     R.rule('R03.2', 'list and mapping branches render every element (no slice, no filter); mapping pairs render key and value', floor=2)
     rfi = K.piece('repr_from_instantiation')
